@@ -22,9 +22,24 @@ func init() {
 		Run: runR10_2})
 }
 
+// narrowing conversions that are safe for a reason outside the function (one line each)
+var r10Reviewed = map[string]string{
+	"internal/encode.EncodeListTable/narrow-int-to-uint32#1":    "dataSize is end-start of the writer's list entry (>= 0: the buffer only grows while the list is open, R12.7 I2) and was checked against MaxSize above",
+	"internal/encode.EncodeListTable/narrow-int-to-uint32#2":    "tableSize is the size returned by encodeListTable = len(table)*entry size >= 0, bounded by MaxSize there",
+	"internal/encode.EncodeMessageTable/narrow-int-to-uint32#1": "dataSize is end-start of the writer's message entry (>= 0, R12.7 I2), checked against MaxSize above",
+	"internal/encode.EncodeMessageTable/narrow-int-to-uint32#2": "tableSize is the size returned by encodeMessageTable = len(table)*entry size >= 0, bounded by MaxSize there",
+	"internal/encode.EncodeStruct/narrow-int-to-uint32#1":       "dataSize is the sum of the sizes reported by the field encoders (each >= 0, R10.3), checked against MaxSize above",
+	"internal/encode.encodeListTable/narrow-uint32-to-uint16#1": "small table form: chosen by format.IsBigList == false, i.e. every offset <= 65535 (R08.2)",
+	"internal/encode.encodeMessageTable/narrow-uint16-to-byte#1":  "small table form: chosen by format.IsBigMessage == false, i.e. every tag <= 255 (R08.2)",
+	"internal/encode.encodeMessageTable/narrow-uint32-to-uint16#2": "small table form: chosen by format.IsBigMessage == false, i.e. every offset <= 65535 (R08.2)",
+}
+
 func runR10_1(c *Ctx, r *R) {
 	e := newBE(c)
-	for _, fn := range c.SrcFuncs("internal/decode") {
+	var fns []*ssa.Function
+	fns = append(fns, c.SrcFuncs("internal/decode")...)
+	fns = append(fns, c.SrcFuncs("internal/encode")...)
+	for _, fn := range fns {
 		fc := e.newFnCtx(fn)
 		n := 0
 		allInstrs(fn, func(i ssa.Instruction) {
@@ -52,6 +67,8 @@ func runR10_1(c *Ctx, r *R) {
 			ok2 := fc.proveAt(leq(x, linBig(thi)), cv, 5)
 			if ok1 && ok2 {
 				r.OK(key, cv.Pos(), "value proved within [%s, %s] by the dominating range guards", tlo, thi)
+			} else if why := r10Reviewed[key]; why != "" {
+				r.OK(key, cv.Pos(), "reviewed: %s", why)
 			} else {
 				side := "lower"
 				if ok1 {
